@@ -536,3 +536,266 @@ Proof.
     destruct Hr as (c & r & Er). rewrite Er, <- Er.
     rewrite (IH (tl seps) f ltac:(discriminate) Hts Hok3 ltac:(simpl in *; lia)). reflexivity.
 Qed.
+
+(** * Part D: the parser as a whole *)
+
+(* everything the parser does, in terms of the token stream of the string (repaired code) *)
+Lemma parse_spec uw s toks e : tokens_of uw s = (toks, e) ->
+  (e = ScanComplete /\ balanced (map classify toks) = true /\
+   exists g, parse uw s = Ok g /\ flatten g = map classify toks)
+  \/ ((e = ScanError \/ balanced (map classify toks) = false) /\ parse uw s = Reject).
+Proof.
+  intros HT. unfold parse, parse_gen. rewrite parse_loop_tokens.
+  pose proof (tokenize_fuel uw (S (length s)) s ltac:(lia)) as HF.
+  unfold tokens_of in HT. rewrite HT in *. simpl in HF.
+  pose proof (run_tokens_inv toks [] ([], 0) Inv_init) as HR. simpl in HR.
+  destruct (run_tokens true toks ([], 0)) as [[g z]| | |]; try contradiction.
+  - destruct HR as (d & -> & Hc & F & D). unfold balanced. rewrite D.
+    destruct e; [| right | congruence].
+    + simpl. destruct (Z.of_nat d >? 0) eqn:Ez.
+      * right. split; [|reflexivity]. right. destruct (Z.of_nat d) eqn:Ed; try reflexivity; lia.
+      * left. assert (d = O) by lia. subst d. simpl. split; [reflexivity|]. split; [reflexivity|].
+        exists g. split; [reflexivity|exact F].
+    + split; [left; reflexivity|reflexivity].
+  - right. split; [|reflexivity]. right. unfold balanced. rewrite HR. reflexivity.
+Qed.
+
+(** ** flatten is injective *)
+Lemma tree_ind' (P : tree -> Prop) :
+  (forall v, P (Leaf v)) -> (forall ch, Forall P ch -> P (Node ch)) -> forall t, P t.
+Proof.
+  intros HL HN. fix IH 1. intros [v|ch]; [apply HL|]. apply HN.
+  induction ch as [|t ch IHch]; constructor; [apply IH|exact IHch].
+Qed.
+
+Definition closes (r : list tok) : Prop := match r with [] => True | TClose :: _ => True | _ => False end.
+
+Lemma flatten_cons t f : flatten (t :: f) = flatten_tree t ++ flatten f.
+Proof. reflexivity. Qed.
+
+Definition first_tree_determined (t : tree) : Prop :=
+  forall f2 r1 r2, closes r2 -> flatten_tree t ++ r1 = flatten f2 ++ r2 ->
+  exists f2', f2 = t :: f2' /\ r1 = flatten f2' ++ r2.
+Definition forest_determined (f : list tree) : Prop :=
+  forall f2 r1 r2, closes r1 -> closes r2 -> flatten f ++ r1 = flatten f2 ++ r2 -> f = f2 /\ r1 = r2.
+
+Lemma forest_from_trees f : Forall first_tree_determined f -> forest_determined f.
+Proof.
+  induction 1 as [|t f Ht Hf IH]; intros f2 r1 r2 C1 C2 E.
+  - simpl in E. destruct f2 as [|t2 f2]; [auto|]. rewrite flatten_cons in E. subst r1.
+    destruct t2; simpl in C1; contradiction.
+  - rewrite flatten_cons, <- app_assoc in E. destruct (Ht f2 _ r2 C2 E) as (f2' & -> & E').
+    destruct (IH f2' r1 r2 C1 C2 E') as [-> ->]. auto.
+Qed.
+
+Lemma all_trees_determined t : first_tree_determined t.
+Proof.
+  induction t as [v|ch IH] using tree_ind'; intros f2 r1 r2 C2 E.
+  - destruct f2 as [|t2 f2].
+    + simpl in E. subst r2. simpl in C2. contradiction.
+    + rewrite flatten_cons in E. destruct t2 as [v2|ch2]; simpl in E; [|discriminate].
+      injection E as -> ->. eauto.
+  - destruct f2 as [|t2 f2].
+    + simpl in E. subst r2. simpl in C2. contradiction.
+    + rewrite flatten_cons in E. destruct t2 as [v2|ch2]; simpl in E; [discriminate|].
+      injection E as E. rewrite <- !app_assoc in E. simpl in E.
+      destruct (forest_from_trees ch IH ch2 (TClose :: r1) (TClose :: flatten f2 ++ r2) I I E) as [-> E']. injection E' as ->. eauto.
+Qed.
+
+Lemma flatten_inj g1 g2 : flatten g1 = flatten g2 -> g1 = g2.
+Proof.
+  intros E. assert (F : Forall first_tree_determined g1) by (apply Forall_forall; intros; apply all_trees_determined).
+  destruct (forest_from_trees g1 F g2 [] [] I I) as [-> _]; [rewrite !app_nil_r; exact E|reflexivity].
+Qed.
+
+(** ** flatten is balanced *)
+Lemma depth_after_flatten_tree t : forall d rest, 0 <= d ->
+  depth_after d (flatten_tree t ++ rest) = depth_after d rest.
+Proof.
+  induction t as [v|ch IH] using tree_ind'; intros d rest Hd; [reflexivity|].
+  cbn [flatten_tree app depth_after]. rewrite <- app_assoc.
+  assert (G : forall d rest, 0 <= d -> depth_after d (flat_map flatten_tree ch ++ rest) = depth_after d rest).
+  { clear d rest Hd. induction IH as [|t ch Ht _ IHch]; intros d rest Hd; [reflexivity|].
+    simpl. rewrite <- app_assoc, Ht by lia. apply IHch. exact Hd. }
+  rewrite G by lia. simpl. replace (d + 1 - 1 <? 0) with false by lia. f_equal. lia.
+Qed.
+
+Lemma balanced_flatten g : balanced (flatten g) = true.
+Proof.
+  unfold balanced. assert (G : forall d, 0 <= d -> depth_after d (flatten g) = Some d).
+  { induction g as [|t g IH]; intros d Hd; [reflexivity|].
+    rewrite flatten_cons, depth_after_flatten_tree by lia. apply IH. exact Hd. }
+  rewrite G by lia. reflexivity.
+Qed.
+
+(** ** printing integers *)
+Lemma digits_val_snoc l c : digits_val (l ++ [c]) = digits_val l * 10 + (c - 48).
+Proof. unfold digits_val. rewrite fold_left_app. reflexivity. Qed.
+
+Lemma show_digits_S f n :
+  show_digits (S f) n = if n <? 10 then [48 + n] else show_digits f (n / 10) ++ [48 + n mod 10].
+Proof. reflexivity. Qed.
+
+Lemma show_digits_spec f : forall n, 0 <= n < 2 ^ Z.of_nat (S f) ->
+  digits (show_digits (S f) n) /\ digits_val (show_digits (S f) n) = n.
+Proof.
+  induction f as [|f IH]; intros n Hn.
+  - change (2 ^ Z.of_nat 1) with 2 in Hn. rewrite show_digits_S. replace (n <? 10) with true by lia.
+    split; [split; [discriminate|cbn [forallb]; cc]|]. unfold digits_val. cbn [fold_left]. lia.
+  - rewrite show_digits_S. destruct (n <? 10) eqn:E.
+    + split; [split; [discriminate|cbn [forallb]; cc]|]. unfold digits_val. cbn [fold_left]. lia.
+    + rewrite Nat2Z.inj_succ, Z.pow_succ_r in Hn by lia.
+      destruct (IH (n / 10) ltac:(lia)) as [[Hne Hd] Hv]. split.
+      * split; [intros Habs; apply app_eq_nil in Habs as [_ Habs]; discriminate|].
+        rewrite forallb_app, Hd. cbn [forallb andb]. cc.
+      * rewrite digits_val_snoc, Hv. lia.
+Qed.
+
+Lemma show_nonneg_spec n : 0 <= n -> digits (show_nonneg n) /\ digits_val (show_nonneg n) = n.
+Proof.
+  intros Hn. unfold show_nonneg. apply show_digits_spec. rewrite Nat2Z.inj_succ, Z2Nat.id by apply Z.log2_nonneg.
+  destruct (Z.eq_dec n 0) as [-> | Hz]; [simpl; lia|].
+  pose proof (Z.log2_spec n ltac:(lia)). lia.
+Qed.
+
+Lemma show_int_shape z : int_shape (show_int z).
+Proof.
+  unfold show_int. destruct (z <? 0) eqn:E.
+  - exists [ch_minus], (show_nonneg (- z)). split; [reflexivity|]. split; [right; reflexivity|].
+    apply show_nonneg_spec. lia.
+  - exists [], (show_nonneg z). split; [reflexivity|]. split; [left; reflexivity|]. apply show_nonneg_spec. lia.
+Qed.
+
+(** ** _parser_token_to_value on the three kinds of atoms *)
+Lemma int_shape_text t : int_shape t -> int_text t = true.
+Proof.
+  intros (sg & d & -> & Hs & Hd). destruct (digits_head d Hd) as (c & d' & E & Hc).
+  subst d. destruct Hs as [-> | ->].
+  - cbn [app]. unfold int_text. replace (c =? ch_minus) with false by cc. apply all_digits_iff. exact Hd.
+  - change (all_digits (c :: d') = true). apply all_digits_iff. exact Hd.
+Qed.
+
+Lemma ttv_int z : token_to_value (show_int z) = VInt z.
+Proof.
+  unfold token_to_value. rewrite (int_shape_text _ (show_int_shape z)). f_equal.
+  unfold show_int. destruct (z <? 0) eqn:E.
+  - simpl. destruct (show_nonneg_spec (- z) ltac:(lia)) as [_ ->]. lia.
+  - destruct (show_nonneg_spec z ltac:(lia)) as [Hd Hv]. destruct (digits_head _ Hd) as (c & d' & Ed & Hc).
+    rewrite Ed in *. simpl. replace (c =? ch_minus) with false by cc. exact Hv.
+Qed.
+
+Lemma not_all_digits_dot d1 d2 : all_digits (d1 ++ ch_dot :: d2) = false.
+Proof.
+  unfold all_digits. destruct (d1 ++ ch_dot :: d2) eqn:E; [reflexivity|]. rewrite <- E.
+  rewrite forallb_app. simpl. replace (is_digit ch_dot) with false by reflexivity.
+  rewrite andb_false_r. reflexivity.
+Qed.
+
+Lemma float_text_shape t : float_text t = true -> float_shape t /\ int_text t = false.
+Proof.
+  unfold float_text. intros H.
+  assert (G : forall body, (let '(d1, r1) := span_digits body in
+             match d1, r1 with _ :: _, c :: r2 => (c =? ch_dot) && all_digits r2 | _, _ => false end) = true ->
+             exists d1 d2, body = d1 ++ ch_dot :: d2 /\ digits d1 /\ digits d2).
+  { intros body Hb. destruct (span_digits body) as [d1 r1] eqn:E.
+    destruct (span_digits_spec body d1 r1 E) as (-> & Hd1 & _).
+    destruct d1 as [|c1 d1]; [discriminate|]. destruct r1 as [|c r2]; [discriminate|].
+    apply andb_true_iff in Hb as [Hc Hd2]. assert (c = ch_dot) by lia. subst c.
+    exists (c1 :: d1), r2. split; [reflexivity|]. split; [split; [discriminate|exact Hd1]|].
+    apply all_digits_iff. exact Hd2. }
+  destruct t as [|c r]; [discriminate|]. destruct (c =? ch_minus) eqn:Ec.
+  - assert (c = ch_minus) by lia. subst c. destruct (G r H) as (d1 & d2 & -> & H1 & H2). split.
+    + exists [ch_minus], d1, d2. split; [reflexivity|]. split; [right; reflexivity|auto].
+    + change (all_digits (d1 ++ ch_dot :: d2) = false). apply not_all_digits_dot.
+  - destruct (G (c :: r) H) as (d1 & d2 & E & H1 & H2). split.
+    + exists [], d1, d2. split; [exact E|]. split; [left; reflexivity|auto].
+    + unfold int_text. rewrite Ec. rewrite E. apply not_all_digits_dot.
+Qed.
+
+Lemma note_text_shape t : note_text t = true -> note_shape t /\ int_text t = false /\ float_text t = false.
+Proof.
+  unfold note_text. destruct t as [|c [|x [|d [|? ?]]]]; try discriminate; intros H.
+  - apply andb_true_iff in H as [Hc Hx]. split; [exists c, x; auto|].
+    unfold int_text, float_text. replace (c =? ch_minus) with false by cc. simpl.
+    replace (is_digit c) with false by cc. split; reflexivity.
+  - apply andb_true_iff in H as [H Hd]. apply andb_true_iff in H as [Hc Hx].
+    assert (x = ch_sharp) by lia. subst x. split; [exists c, d; auto|].
+    unfold int_text, float_text. replace (c =? ch_minus) with false by cc. simpl.
+    replace (is_digit c) with false by cc. split; reflexivity.
+Qed.
+
+Lemma atom_not_bracket t : int_shape t \/ float_shape t \/ note_shape t -> is_bracket_text t = false.
+Proof.
+  intros H. assert (S : tok_shape t) by (unfold tok_shape; tauto).
+  destruct (tok_shape_head t S) as (c & r & -> & Hc).
+  assert (c <> ch_open /\ c <> ch_close).
+  { destruct H as [(sg & d & E & Hs & Hd) | [(sg & d1 & d2 & E & Hs & Hd & _) | (c' & d & Hc' & Hd & E)]].
+    - destruct (digits_head d Hd) as (c0 & d' & -> & Hc0). destruct Hs as [-> | ->]; simpl in E; injection E as -> _; cc.
+    - destruct (digits_head d1 Hd) as (c0 & d' & -> & Hc0). destruct Hs as [-> | ->]; simpl in E; injection E as -> _; cc.
+    - destruct E as [E | E]; injection E as -> _; cc. }
+  unfold is_bracket_text, str_eqb. simpl.
+  replace (c =? ch_open) with false by lia. replace (c =? ch_close) with false by lia. reflexivity.
+Qed.
+
+Definition wf_tok (tk : tok) : Prop := match tk with TVal v => wf_value v = true | _ => True end.
+
+Lemma wf_tok_shape tk : wf_tok tk -> tok_shape (tok_text tk) /\ classify (tok_text tk) = tk.
+Proof.
+  destruct tk as [| |v]; intros H; [split; [left; reflexivity|reflexivity]|split; [right; left; reflexivity|reflexivity]|].
+  simpl in H. unfold classify.
+  assert (A : int_shape (value_text v) \/ float_shape (value_text v) \/ note_shape (value_text v)).
+  { destruct v as [z|t|t]; simpl in *.
+    - left. apply show_int_shape.
+    - right; left. apply float_text_shape. exact H.
+    - right; right. apply note_text_shape. exact H. }
+  pose proof (atom_not_bracket _ A) as NB. unfold is_bracket_text in NB. apply orb_false_iff in NB as [N1 N2].
+  cbn [tok_text]. rewrite N1, N2. split; [unfold tok_shape; tauto|]. f_equal.
+  destruct v as [z|t|t]; simpl in *.
+  - apply ttv_int.
+  - unfold token_to_value. destruct (float_text_shape t H) as [_ ->]. rewrite H. reflexivity.
+  - unfold token_to_value. destruct (note_text_shape t H) as (_ & -> & ->). reflexivity.
+Qed.
+
+Lemma wf_flatten g : forallb wf_tree g = true -> Forall wf_tok (flatten g).
+Proof.
+  assert (T : forall t, wf_tree t = true -> Forall wf_tok (flatten_tree t)).
+  { induction t as [v|ch IH] using tree_ind'; intros H; simpl in *.
+    - constructor; [exact H|constructor].
+    - constructor; [exact I|]. apply Forall_app. split; [|constructor; [exact I|constructor]].
+      induction IH as [|t ch Ht _ IHch]; [constructor|]. simpl in H. apply andb_true_iff in H as [H1 H2].
+      simpl. apply Forall_app. split; [apply Ht; exact H1|apply IHch; exact H2]. }
+  induction g as [|t g IH]; intros H; [constructor|]. simpl in H. apply andb_true_iff in H as [H1 H2].
+  rewrite flatten_cons. apply Forall_app. split; [apply T; exact H1|apply IH; exact H2].
+Qed.
+
+Lemma render_length texts : forall seps, Forall tok_shape texts -> (length texts <= length (render texts seps))%nat.
+Proof.
+  induction texts as [|t ts IH]; intros seps H; [simpl; lia|]. inversion H; subst.
+  simpl. rewrite !app_length. pose proof (tok_shape_nonempty t H2). specialize (IH (tl seps) H3). lia.
+Qed.
+
+Lemma flatten_tree_nonempty t : flatten_tree t <> [].
+Proof. destruct t; discriminate. Qed.
+
+(** ** the round trip *)
+Lemma roundtrip uw g seps : space_not_word uw -> g <> [] -> forallb wf_tree g = true ->
+  seps_ok (map tok_text (flatten g)) seps = true ->
+  parse uw (format seps g) = Ok g.
+Proof.
+  intros Huw Hne Hwf Hsep. unfold format. set (texts := map tok_text (flatten g)) in *.
+  pose proof (wf_flatten g Hwf) as HW.
+  assert (H1 : Forall tok_shape texts).
+  { unfold texts. apply Forall_map. eapply Forall_impl; [|exact HW]. intros tk H. apply wf_tok_shape. exact H. }
+  assert (H2 : texts <> []).
+  { unfold texts. destruct g as [|t g]; [congruence|]. rewrite flatten_cons.
+    pose proof (flatten_tree_nonempty t). destruct (flatten_tree t); [congruence|discriminate]. }
+  assert (H4 : map classify texts = flatten g).
+  { unfold texts. rewrite map_map. rewrite <- (map_id (flatten g)) at 2. apply map_ext_Forall.
+    eapply Forall_impl; [|exact HW]. intros tk H. apply wf_tok_shape. exact H. }
+  assert (H3 : tokens_of uw (render texts seps) = (texts, ScanComplete)).
+  { unfold tokens_of. apply tokenize_render; auto. pose proof (render_length texts seps H1). lia. }
+  destruct (parse_spec uw _ _ _ H3) as [(_ & _ & g' & P & F) | [[E | E] _]].
+  - rewrite P. f_equal. apply flatten_inj. rewrite F, H4. reflexivity.
+  - discriminate.
+  - rewrite H4, balanced_flatten in E. discriminate.
+Qed.
